@@ -1027,6 +1027,12 @@ func (ex *Exec) frameCheck(rec *recorder, pos token.Pos) {
 				allowedAll[heapKey("G$", m[1])] = true
 				continue
 			}
+			if keys, _, ok := ex.fieldKeys(item, sc); ok {
+				for _, k := range keys {
+					allowedAll[k] = true
+				}
+				continue
+			}
 			e, err := parseSpecExpr(item)
 			if err != nil {
 				ex.specErr("bad modifies item %q", item)
